@@ -1202,6 +1202,30 @@ pub fn g_c(fmt: Fmt, r: &Recipe, lim: Limits) -> Case {
     }
 }
 
+/// G-C restricted to the ends of the range (subnormal results / top binade).
+pub fn g_c_edge(fmt: Fmt, r: &Recipe, lim: Limits) -> Case {
+    let t = hard_table();
+    let (tab, lo_q, hi_q) = match fmt {
+        Fmt::F32 => (&t.f32, -37i32, 29i32),
+        Fmt::F64 => (&t.f64, -305i32, 289i32),
+    };
+    // the table is sorted by q: the low and high ends are contiguous slices
+    let n_lo = tab.partition_point(|h| h.q < lo_q);
+    let n_hi_start = tab.partition_point(|h| h.q <= hi_q);
+    let total = n_lo + (tab.len() - n_hi_start);
+    if total == 0 {
+        return g_c(fmt, r, lim);
+    }
+    let i = ((r.a as u128 * total as u128) >> 64) as usize;
+    let idx = if i < n_lo { i } else { n_hi_start + (i - n_lo) };
+    // re-use g_c's emission by steering its index to `idx`
+    let mut r2 = r.clone();
+    r2.a = (((idx as u128) << 64) / tab.len() as u128) as u64 + ((1u128 << 64) / (2 * tab.len() as u128)) as u64;
+    let mut c = g_c(fmt, &r2, lim);
+    c.family = "G-C closest-approach (range ends)";
+    c
+}
+
 // ---------------------------------------------------------------------------
 // mixtures
 
